@@ -69,6 +69,18 @@ def run(cmd, cwd=None, timeout=None, env=None):
 
 
 # ---------------------------------------------------------------- specs
+def spec_targets(spec):
+    """Coq targets of a property: its Properties file plus every DicomV module the correspondence shards import
+    (a checker module such as Model/DsCheck.v need not be in the cone of the Properties file)."""
+    t = list(spec["coq_targets"])
+    for m in re.finditer(r"From\s+DicomV\s+Require\s+(?:(?:Import|Export)\s+)?((?:[\w.]+\s+)*[\w.]*\w)\s*\.", spec.get("shard_imports", "")):
+        for tok in m.group(1).split():
+            vo = tok.replace("DicomV.", "").replace(".", "/") + ".vo"
+            if vo not in t and os.path.exists(os.path.join(COQ, vo[:-1])):
+                t.append(vo)
+    return t
+
+
 def load_spec(pid):
     p = os.path.join(VERIF, "props", pid + ".json")
     if not os.path.exists(p):
@@ -468,8 +480,13 @@ def check(pid, tier="quick", seed=None, n_override=None, replay=None):
         notes.append("tables of other properties in the cone regenerated: " + "; ".join(deps_done))
 
     # 3. proofs
-    okc, outc, first = coq_build(spec["coq_targets"])
+    okc, outc, first = coq_build(spec_targets(spec))
     files = cone(spec["property_file"])
+    for t in spec_targets(spec):                 # checker modules used by the shards are audited too
+        for f in cone(t[:-1]):
+            if f not in files:
+                files.append(f)
+    files = sorted(files)
     obligations = count_obligations(files)
     discharged = obligations if okc else 0
     if not okc:
